@@ -11,6 +11,10 @@ from ...output_stream import attr_name, attr_quote, is_boolean_attribute
 __doc__ =  "Utility methods for working with indent-based markup languages like HAML, Slim, Pug etc."
 
 
+re_class_value = re.compile(r'^[\w\s-]*$')
+re_id_value = re.compile(r'^[\w-]*$')
+
+
 class IndentWalkState(WalkState):
     __slots__ = ('options')
 
@@ -66,7 +70,7 @@ def collect_attributes(node: AbbreviationNode):
         for attr in node.attributes:
             # NB: `#` or `.` with nothing after it is not a valid shorthand:
             # output empty `id` and `class` as regular attributes
-            if is_primary_attribute(attr) and has_content(attr):
+            if is_primary_attribute(attr) and has_content(attr) and is_shorthand(attr):
                 primary.append(attr)
             else:
                 secondary.append(attr)
@@ -172,6 +176,20 @@ def push_value(node: AbbreviationNode, state: IndentWalkState):
 
 def is_primary_attribute(attr: AbbreviationAttribute):
     return attr.name == 'class' or attr.name == 'id'
+
+
+def is_shorthand(attr: AbbreviationAttribute):
+    """
+    Check if value of given attribute can be written as `#id` or `.class` shorthand:
+    a name with dots, colons, slashes etc. (`p-1.5`, `md:flex`) would be read
+    as something else
+    """
+    pattern = re_class_value if attr.name == 'class' else re_id_value
+    for token in attr.value or []:
+        if isinstance(token, str) and not pattern.match(token):
+            return False
+
+    return True
 
 
 def has_content(attr: AbbreviationAttribute):
